@@ -62,6 +62,7 @@ type Ctx struct {
 	seenKnown  map[string]bool
 	violations []Violation
 	harnessErr []string
+	skipped    []string // work given up for lack of resources (timeouts under load, killed compilers): not a verdict
 	Ev         *Evidence
 }
 
@@ -247,6 +248,24 @@ func (c *Ctx) NumViolations() int {
 	return len(c.violations)
 }
 
+// Skip records work that was given up for lack of resources (a run that hit its generous wall-clock limit on
+// an overloaded machine, a compiler killed by the kernel). It is neither a violation nor a harness bug: the run
+// exits as if the case had not been scheduled, with exhaustive:false and the reasons in the evidence.
+func (c *Ctx) Skip(format string, a ...any) {
+	c.mu.Lock()
+	defer c.mu.Unlock()
+	m := fmt.Sprintf(format, a...)
+	if len(c.skipped) < 50 {
+		c.skipped = append(c.skipped, m)
+	}
+	fmt.Fprintln(os.Stderr, "SKIPPED-FOR-RESOURCES:", m)
+}
+
+// ResourceFailure reports whether a command result looks like resource exhaustion rather than a verdict.
+func ResourceFailure(r Result) bool {
+	return r.TimedOut || r.Signal == "killed" || strings.Contains(r.Stderr, "signal: killed") || strings.Contains(r.Stderr, "cannot allocate memory") || strings.Contains(r.Stderr, "resource temporarily unavailable")
+}
+
 // Harness records a harness/build problem (exit 2, never a VIOLATION).
 func (c *Ctx) Harness(format string, a ...any) {
 	c.mu.Lock()
@@ -268,6 +287,10 @@ func (c *Ctx) Finish() int {
 	}
 	if len(unusedKnown) > 0 {
 		c.Ev.Coverage["known_findings_not_reproduced_this_run"] = unusedKnown
+	}
+	if len(c.skipped) > 0 {
+		c.Ev.Coverage["skipped_for_resources"] = c.skipped
+		c.Ev.Coverage["exhaustive"] = false
 	}
 	if err := c.Ev.Write(); err != nil {
 		fmt.Fprintln(os.Stderr, "evidence:", err)
